@@ -61,4 +61,10 @@ CLAIMED["C08"] = (
     "dynamic: every window entry handed to a step must be the payload of the scheduled sequence number; static: replay of reads/writes in schedule order.",
     "compiled runtime inside the documented horizon; ring sizes read from Graph.init().buffer; <=4 nodes, <=9 steps, <=3 episodes", "DESIGN.md §4 C08",
 )
+CLAIMED["C09"] = (
+    PBT + ": metamorphic relations between API compositions (run^n, rollout carry/full, reset+step, eager vs jit, vmap lanes, overridden supervisor step) compared bitwise",
+    "Independently generated computation graphs x supergraph mode x prune x seeds x params overrides x starting episode/step (incl. out of range) x n; all driving "
+    "APIs must return identical GraphState pytrees, params/eps/step given to init() must be what the steps see, out-of-range indices must clip.",
+    "compiled runtime inside the documented horizon; integer-arithmetic probe nodes make bitwise comparison meaningful", "DESIGN.md §4 C09",
+)
 NOT_APPLICABLE = {}
